@@ -481,12 +481,11 @@ theorem shardDev_cfgs {nd : NodeS} {vs : ValueS} {v : VId} {c : CId} {axis k : I
   · subst h1; exact Or.inl rfl
   · subst h1; exact Or.inl hec
 
-theorem DevOK_shard {w : World} (h : DevOK w) (n : NId) (v : VId) (c : CId) (axis k : Int)
+theorem DevOK_shardCore {w : World} (h : DevOK w) (n : NId) (v : VId) (c : CId) (axis k : Int)
     (devs : List Int) (stage : Option Int)
-    (hpre : Pre w (.shard n v c axis k devs stage)) :
-    DevOK (shard w n v c axis k devs stage).1 := by
-  obtain ⟨hreg, hc, hdev⟩ := hpre
-  unfold shard
+    (hreg : RegOn w n c) (hc : c < w.cfgs.length) (hdev : ∀ d ∈ devs, 0 ≤ d ∧ d < (w.cfg c).numDevices) :
+    DevOK (shardCore w n v c axis k devs stage).1 := by
+  unfold shardCore
   split
   · exact h
   · rename_i d hd
@@ -1138,15 +1137,53 @@ theorem DevOK_resizeOutputs {w : World} (h : DevOK w) (n : NId) (k : Nat) :
 
 theorem DevOK_rename {w : World} (h : DevOK w) (v : VId) (s : String) : DevOK (rename w v s).1 := by
   unfold rename
-  refine h.ext_same_nodes ?_ rfl rfl
-  refine ⟨by simp, ?_, Nat.le_refl _, fun _ _ => rfl⟩
-  intro x hx
-  simp only [World.value, List.getD_eq_getElem?_getD, List.getElem?_set]
   split
-  · rename_i hvx
-    subst hvx
-    simp [hx]
-  · rfl
+  · exact h
+  · split
+    · exact h
+    · refine h.ext_same_nodes ?_ rfl rfl
+      refine ⟨by simp, ?_, Nat.le_refl _, fun _ _ => rfl⟩
+      intro x hx
+      simp only [World.value, List.getD_eq_getElem?_getD, List.getElem?_set]
+      split
+      · rename_i hvx
+        subst hvx
+        simp [hx]
+      · rfl
+
+/-- `NodeOK` only reads the rank of the values the node's specs target -/
+theorem NodeOK_of_rank {w w' : World} {nd : NodeS} (hn : NodeOK w nd)
+    (hlen : w'.values.length = w.values.length) (hc : w'.cfgs = w.cfgs)
+    (hr : ∀ nc ∈ nd.dev, ∀ s ∈ nc.specs, rankOf (w'.value s.value) = rankOf (w.value s.value)) :
+    NodeOK w' nd := by
+  obtain ⟨hids, hnd, hall⟩ := hn
+  refine ⟨⟨fun o ho v hov => by rw [hlen]; exact hids.1 o ho v hov, fun v hv => by rw [hlen]; exact hids.2 v hv⟩, hnd, ?_⟩
+  intro nc hnc
+  obtain ⟨a, b, c, d⟩ := hall nc hnc
+  refine ⟨by rw [hc]; exact a, b, c, ?_⟩
+  intro sp hsp
+  refine ⟨(d sp hsp).1, ?_⟩
+  have hcfg : w'.cfg nc.cfg = w.cfg nc.cfg := by simp [World.cfg, hc]
+  unfold SpecWF
+  rw [hr nc hnc sp hsp, hcfg]
+  exact (d sp hsp).2
+
+theorem DevOK_setShape {w : World} (h : DevOK w) (v : VId) (shape : Option (List Dim))
+    (hpre : Pre w (.setShape v shape)) : DevOK (setShape w v shape).1 := by
+  unfold setShape
+  have hval : ∀ x, x ≠ v → World.value { w with values := w.values.set v { (w.value v) with shape := shape } } x = w.value x := by
+    intro x hx
+    simp only [World.value, List.getD_eq_getElem?_getD, List.getElem?_set]
+    have : ¬ v = x := fun e => hx e.symm
+    simp [this]
+  constructor
+  · intro nd hnd
+    refine NodeOK_of_rank (h.1 nd hnd) (by simp) rfl ?_
+    intro nc hnc sp hsp
+    rw [hval _ (hpre nd hnd nc hnc sp hsp)]
+  · intro ms hms
+    obtain ⟨a, b, c⟩ := h.2 ms hms
+    exact ⟨a, b, c⟩
 
 theorem DevOK_setModel {w : World} (h : DevOK w) (m : MId) (ms' : ModelS) (hm : ModelOK w ms') :
     DevOK (w.setModel m ms') := by
@@ -1995,8 +2032,8 @@ theorem cloneNodes_over {rec : CSt → GId → Option (CSt × GId)} (hm : OverMo
 theorem cloneGraphBody_parts {rec : CSt → GId → Option (CSt × GId)} {src : World} {st st' : CSt}
     {g g' : GId} (hc : cloneGraphBody rec src st g = some (st', g')) :
     ∃ st2 ns, cloneNodes rec src
-        { st with w := ((src.graph g).inputs.foldl cloneValue (st.w, st.vm)).1,
-                  vm := ((src.graph g).inputs.foldl cloneValue (st.w, st.vm)).2 } (src.graph g).nodes [] = some (st2, ns) ∧
+        { st with w := (((src.graph g).inputs ++ (src.graph g).inits).foldl cloneValue (st.w, st.vm)).1,
+                  vm := (((src.graph g).inputs ++ (src.graph g).inits).foldl cloneValue (st.w, st.vm)).2 } (src.graph g).nodes [] = some (st2, ns) ∧
       st'.vm = st2.vm ∧ st'.over = st2.over ∧ st'.newNodes = st2.newNodes ∧
       st'.w.values = st2.w.values ∧ st'.w.cfgs = st2.w.cfgs ∧ st'.w.nodes = st2.w.nodes ∧
       st'.w.models = st2.w.models := by
@@ -2147,10 +2184,10 @@ theorem cloneGraphBody_spec {w : World} {ms : ModelS} {rec : CSt → GId → Opt
   intro st g st' g' hg hc hov hinv
   obtain ⟨st2, ns, hcn, hvm, ho, hnn, hv, hcf, hnd, hmd⟩ := cloneGraphBody_parts hc
   rw [ho] at hov
-  have hi := foldl_cloneValue_inv (w := w) (cfgs := ms.cfgs) (w.graph g).inputs hinv.inv
-  have hnodes := foldl_cloneValue_nodes (w.graph g).inputs (st.w, st.vm)
-  have hmono0 := foldl_cloneValue_mono (w.graph g).inputs (st.w, st.vm)
-  generalize (w.graph g).inputs.foldl cloneValue (st.w, st.vm) = r at hcn hi hnodes hmono0
+  have hi := foldl_cloneValue_inv (w := w) (cfgs := ms.cfgs) ((w.graph g).inputs ++ (w.graph g).inits) hinv.inv
+  have hnodes := foldl_cloneValue_nodes ((w.graph g).inputs ++ (w.graph g).inits) (st.w, st.vm)
+  have hmono0 := foldl_cloneValue_mono ((w.graph g).inputs ++ (w.graph g).inits) (st.w, st.vm)
+  generalize ((w.graph g).inputs ++ (w.graph g).inits).foldl cloneValue (st.w, st.vm) = r at hcn hi hnodes hmono0
   have hinv0 : CInv w ms.cfgs { st with w := r.1, vm := r.2 } := by
     refine ⟨hi, ?_⟩
     intro k hk
@@ -2390,23 +2427,23 @@ theorem grow_outputs_dev {nd : NodeS} (extra : List VId)
 
 theorem drop_exact {w : World} (h : ∀ n, ∀ nc ∈ (w.node n).dev, ∀ s ∈ nc.specs, InIO (w.node n) s.value)
     (op : Op) (n : NId) (hop : op.detaches = some n) :
-    ((step w op).1.node n).dev = keepIO ((step w op).1.node n) (w.node n).dev ∧
-    ∀ k, k ≠ n → (step w op).1.node k = w.node k := by
+    ((stepD w op).1.node n).dev = keepIO ((stepD w op).1.node n) (w.node n).dev ∧
+    ∀ k, k ≠ n → (stepD w op).1.node k = w.node k := by
   have hself : (w.node n).dev = keepIO (w.node n) (w.node n).dev := (keepIO_self (h n)).symm
   cases op with
   | replaceInput n' i val =>
     simp only [Op.detaches, Option.some.injEq] at hop; subst hop
-    simp only [step, replaceInput]
+    simp only [stepD, replaceInput]
     split
     · exact ⟨hself, fun _ _ => rfl⟩
     · exact ⟨setNode_node_self_dev w _ _ (replaceInputNode_dev _ val (h _)), fun k hk => setNode_node_other w _ k _ hk⟩
   | resizeInputs n' k' =>
     simp only [Op.detaches, Option.some.injEq] at hop; subst hop
-    simp only [step, resizeInputs]
+    simp only [stepD, resizeInputs]
     exact ⟨setNode_node_self_dev w _ _ (resizeInputsNode_detached k' (h _)).dev, fun k hk => setNode_node_other w _ k _ hk⟩
   | resizeOutputs n' k' =>
     simp only [Op.detaches, Option.some.injEq] at hop; subst hop
-    simp only [step, resizeOutputs]
+    simp only [stepD, resizeOutputs]
     split
     · exact ⟨hself, fun _ _ => rfl⟩
     · split
@@ -2422,7 +2459,7 @@ theorem drop_exact {w : World} (h : ∀ n, ∀ nc ∈ (w.node n).dev, ∀ s ∈ 
           rw [setNode_node]; simp [hk]; rfl
   | removeNode m n' safe =>
     simp only [Op.detaches, Option.some.injEq] at hop; subst hop
-    simp only [step, removeNode]
+    simp only [stepD, removeNode]
     split
     · exact ⟨hself, fun _ _ => rfl⟩
     · split
@@ -2439,6 +2476,11 @@ theorem drop_exact {w : World} (h : ∀ n, ∀ nc ∈ (w.node n).dev, ∀ s ∈ 
   | newModel _ => cases hop
   | newInput _ _ _ => cases hop
   | newSubgraph _ => cases hop
+  | attachNode _ _ => cases hop
+  | newInit _ _ _ => cases hop
+  | setShape _ _ => cases hop
+  | setDev _ _ => cases hop
+  | setModelCfgs _ _ => cases hop
   | newNode _ _ _ => cases hop
   | rename _ _ => cases hop
   | addCfg _ _ _ _ => cases hop
@@ -2450,22 +2492,45 @@ theorem drop_exact {w : World} (h : ∀ n, ∀ nc ∈ (w.node n).dev, ∀ s ∈ 
 
 /-! ### rejected requests -/
 
-theorem step_raised_same (w : World) (op : Op) (h : (step w op).2 = .raised) : (step w op).1 = w := by
+theorem stepD_raised_same (w : World) (op : Op) (h : (stepD w op).2 = .raised) : (stepD w op).1 = w := by
   cases op with
-  | newModel ir => simp [step, newModel] at h
-  | newInput m name shape => simp [step, newInput] at h
-  | newSubgraph n => simp [step, newSubgraph] at h
-  | newNode m ins outs => simp [step, newNode] at h
+  | newModel ir => simp [stepD, newModel] at h
+  | newInput m name shape => simp [stepD, newInput] at h
+  | newSubgraph n => simp [stepD, newSubgraph] at h
+  | newNode m ins outs => simp [stepD, newNode] at h
   | removeNode m n safe =>
-    simp only [step, removeNode] at h ⊢
+    simp only [stepD, removeNode] at h ⊢
     split
     · rfl
     · split
       · rfl
       · rename_i h1 h2; simp [h1, h2] at h
-  | rename v s => simp [step, rename] at h
+  | rename v s =>
+    simp only [stepD, rename] at h ⊢
+    split
+    · rfl
+    · split
+      · rfl
+      · rename_i h1 h2; simp [h1, h2] at h
+  | attachNode g n =>
+    simp only [stepD, attachNode] at h ⊢
+    split
+    · rfl
+    · rename_i h1
+      simp only [h1, if_false] at h
+      split at h <;> cases h
+  | newInit g name shape =>
+    simp only [stepD, newInit] at h ⊢
+    split
+    · rfl
+    · split
+      · rfl
+      · rename_i h1 h2; simp [h1, h2] at h
+  | setShape v shape => simp [stepD, setShape] at h
+  | setDev n dev => simp [stepD, setDev] at h
+  | setModelCfgs m cfgs => simp [stepD, setModelCfgs] at h
   | addCfg m name num names =>
-    simp only [step, addCfg] at h ⊢
+    simp only [stepD, addCfg] at h ⊢
     split
     · rfl
     · split
@@ -2476,30 +2541,34 @@ theorem step_raised_same (w : World) (op : Op) (h : (step w op).2 = .raised) : (
           · rfl
           · rename_i h1 h2 h3 h4; simp [h1, h2, h3, h4] at h
   | removeCfg m r cascade =>
-    simp only [step, removeCfg] at h ⊢
+    simp only [stepD, removeCfg] at h ⊢
     split
     · rfl
     · rename_i t ht
       simp only [ht] at h
       split at h <;> cases h
   | shard n v c axis k devs stage =>
-    simp only [step, shard] at h ⊢
+    simp only [stepD, shard] at h ⊢
     split
     · rfl
-    · rename_i d hd; simp [hd] at h
+    · rename_i hdb
+      simp only [hdb, if_false, shardCore] at h ⊢
+      split
+      · rfl
+      · rename_i d hd; simp [hd] at h
   | setStage n c stage =>
-    simp only [step, setStage] at h ⊢
+    simp only [stepD, setStage] at h ⊢
     split
     · rfl
     · rename_i h1; simp [h1] at h
   | replaceInput n i val =>
-    simp only [step, replaceInput] at h ⊢
+    simp only [stepD, replaceInput] at h ⊢
     split
     · rfl
     · rename_i h1; simp [h1] at h
-  | resizeInputs n k => simp [step, resizeInputs] at h
+  | resizeInputs n k => simp [stepD, resizeInputs] at h
   | resizeOutputs n k =>
-    simp only [step, resizeOutputs] at h ⊢
+    simp only [stepD, resizeOutputs] at h ⊢
     split
     · rfl
     · split
@@ -2508,12 +2577,12 @@ theorem step_raised_same (w : World) (op : Op) (h : (step w op).2 = .raised) : (
         · rename_i h1 h2 h3; simp [h1, h2, h3] at h
       · rename_i h1 h2; simp [h1, h2] at h
   | clone m =>
-    simp only [step, cloneModel, cloneModelX] at h ⊢
+    simp only [stepD, cloneModel, cloneModelX] at h ⊢
     split
     · rfl
     · rename_i hc; simp [hc] at h
   | roundTrip m =>
-    simp only [step, roundTrip] at h ⊢
+    simp only [stepD, roundTrip] at h ⊢
     split
     · rfl
     · split
@@ -2521,7 +2590,7 @@ theorem step_raised_same (w : World) (op : Op) (h : (step w op).2 = .raised) : (
       · rename_i h1 _ _ h2; simp [h1, h2] at h
 
 /-- the requests `Node.shard` documents as invalid -/
-def ShardInvalid (w : World) (n : NId) (v : VId) (c : CId) (axis k : Int) (stage : Option Int) : Prop :=
+def ShardInvalidCore (w : World) (n : NId) (v : VId) (c : CId) (axis k : Int) (stage : Option Int) : Prop :=
   ¬ InIO (w.node n) v ∨ k < 1 ∨ (∃ s, stage = some s ∧ s < 0) ∨ AxisBad (rankOf (w.value v)) axis ∨
   (∃ nc ∈ (w.node n).dev, nc.cfg = c ∧ StageConflict stage nc.stage) ∨
   (∃ nc ∈ (w.node n).dev, nc.cfg = c ∧ ∃ s ∈ nc.specs, s.value = v ∧
@@ -2621,16 +2690,16 @@ theorem shardCfgs_none_iff {rank : Option Nat} {v : VId} {c : CId} {axis : Int} 
           · subst hnc; exact absurd hcc hc
           · exact Or.inr ⟨nc, hnc, hcc, h2⟩
 
-theorem shard_raised_iff {w : World} (n : NId) (v : VId) (c : CId) (axis k : Int) (devs : List Int)
+theorem shardCore_raised_iff {w : World} (n : NId) (v : VId) (c : CId) (axis k : Int) (devs : List Int)
     (stage : Option Int) (hn : NodeOK w (w.node n)) :
-    (shard w n v c axis k devs stage).2 = .raised ↔ ShardInvalid w n v c axis k stage := by
+    (shardCore w n v c axis k devs stage).2 = .raised ↔ ShardInvalidCore w n v c axis k stage := by
   obtain ⟨_, hnd, hall⟩ := hn
-  unfold shard
+  unfold shardCore
   cases hd : shardDev (w.node n) (w.value v) v c axis k devs stage with
   | some d =>
     simp only [reduceCtorEq, false_iff]
     obtain ⟨hbad, dim, h'⟩ := shardDev_ok hd
-    unfold ShardInvalid
+    unfold ShardInvalidCore
     intro hinv
     rcases hinv with h1 | h1 | h1 | h1 | h1 | h1
     · exact hbad (Or.inl h1)
@@ -2646,7 +2715,7 @@ theorem shard_raised_iff {w : World} (n : NId) (v : VId) (c : CId) (axis k : Int
   | none =>
     simp only [true_iff]
     unfold shardDev at hd
-    unfold ShardInvalid
+    unfold ShardInvalidCore
     split at hd
     · rename_i hbad
       rcases hbad with h1 | h1 | h1 | h1
@@ -2767,5 +2836,337 @@ theorem serModelDev_some {w : World} (h : DevOK w) (hn : Named w) (m : MId) :
       simp [this]
     obtain ⟨r, hr⟩ := this
     exact ⟨_, by rw [hr]; rfl⟩
+
+/-! ### the micro-step programs -/
+
+theorem runMicro_writes_ok : ∀ (p : List Micro) (w : World), (∀ m ∈ p, m.isWrite = true) → (runMicro w p).2 = .ok := by
+  intro p
+  induction p with
+  | nil => intro w _; rfl
+  | cons m rest ih =>
+    intro w h
+    cases m with
+    | check bad => have := h (.check bad) (by simp); simp [Micro.isWrite] at this
+    | write f => simp only [runMicro]; exact ih _ (fun x hx => h x (by simp [hx]))
+
+/-- a program whose checks all precede its writes is atomic: a raise leaves the very world it was given -/
+theorem runMicro_atomic : ∀ (p : List Micro) (w : World), ChecksFirst p → (runMicro w p).2 = .raised →
+    (runMicro w p).1 = w := by
+  intro p
+  induction p with
+  | nil => intro w _ h; cases h
+  | cons m rest ih =>
+    intro w hcf h
+    cases m with
+    | check bad =>
+      simp only [runMicro] at h ⊢
+      split
+      · rfl
+      · rename_i hb; simp only [hb] at h; exact ih w hcf h
+    | write f =>
+      simp only [runMicro] at h
+      have := runMicro_writes_ok rest (f w) hcf
+      rw [this] at h; cases h
+
+theorem progOf_checksFirst (op : Op) (p : List Micro) (h : progOf op = some p) : ChecksFirst p := by
+  cases op <;> simp only [progOf, Option.some.injEq, reduceCtorEq] at h <;> subst h <;>
+    simp [removeNodeProg, attachNodeProg, newInitProg, renameProg, addCfgProg, removeCfgProg, shardProg,
+      setStageProg, replaceInputProg, resizeOutputsProg, ChecksFirst, Micro.isWrite]
+
+theorem mergeSpecs_none_first {rank : Option Nat} {v : VId} {axis : Int} {devs : List Int} {newDim : SDim} :
+    ∀ {l : List Spec}, (mergeSpecs rank v axis devs newDim l = none ↔
+      match l.find? (fun s => decide (s.value = v)) with
+      | some s => ∃ d ∈ s.dims, normAxis rank d.axis = normAxis rank axis
+      | none => False) := by
+  intro l
+  induction l with
+  | nil => simp [mergeSpecs]
+  | cons s rest ih =>
+    simp only [mergeSpecs, List.find?_cons]
+    by_cases hv : s.value = v
+    · simp only [hv, if_true, decide_true]
+      split <;> simp_all
+    · simp only [hv, if_false, decide_false]
+      rw [Option.map_eq_none_iff, ih]
+
+theorem shardCfgs_none_first {rank : Option Nat} {v : VId} {c : CId} {axis : Int} {devs : List Int}
+    {newDim : SDim} {stage : Option Int} :
+    ∀ {l : List NodeCfg}, (shardCfgs rank v c axis devs newDim stage l = none ↔
+      match firstCfg l c with
+      | some e => StageConflict stage e.stage ∨ mergeSpecs rank v axis devs newDim e.specs = none
+      | none => False) := by
+  intro l
+  induction l with
+  | nil => simp [shardCfgs, firstCfg]
+  | cons e rest ih =>
+    simp only [shardCfgs, firstCfg, List.find?_cons]
+    by_cases hc : e.cfg = c
+    · simp only [hc, if_true, decide_true]
+      by_cases hcf : StageConflict stage e.stage
+      · simp [hcf]
+      · simp only [hcf, if_false, false_or]
+        cases mergeSpecs rank v axis devs newDim e.specs <;> simp
+    · simp only [hc, if_false, decide_false]
+      rw [Option.map_eq_none_iff]
+      exact ih
+
+/-- `shardProg` without the device-index check -/
+def shardProgCore (n : NId) (v : VId) (c : CId) (axis numShards : Int) (devs : List Int)
+    (stage : Option Int) : List Micro :=
+  [ .check (fun w => decide (¬ InIO (w.node n) v)),
+    .check (fun _ => decide (numShards < 1)),
+    .check (fun _ => stageNeg stage),
+    .check (fun w => decide (AxisBad (rankOf (w.value v)) axis)),
+    .check (fun w => conflictBad (w.node n).dev c stage),
+    .check (fun w => repeatBad (w.node n).dev c v (rankOf (w.value v)) axis),
+    .write (fun w => match shardDev (w.node n) (w.value v) v c axis numShards devs stage with
+      | some d => w.setNode n { (w.node n) with dev := d }
+      | none => w) ]
+
+theorem stageNeg_eq (stage : Option Int) : stageNeg stage = true ↔ ∃ s, stage = some s ∧ s < 0 := by
+  cases stage <;> simp [stageNeg]
+
+/-- the two loop raise points are exactly the ways the loops of `shard` fail -/
+theorem shardCfgs_none_bad {rank : Option Nat} {v : VId} {c : CId} {axis : Int} {devs : List Int}
+    {newDim : SDim} {stage : Option Int} {l : List NodeCfg} :
+    shardCfgs rank v c axis devs newDim stage l = none ↔
+      (conflictBad l c stage = true ∨ repeatBad l c v rank axis = true) := by
+  rw [shardCfgs_none_first]
+  unfold conflictBad repeatBad
+  cases firstCfg l c with
+  | none => simp
+  | some e =>
+    simp only [mergeSpecs_none_first, decide_eq_true_eq]
+    cases e.specs.find? (fun s => decide (s.value = v)) <;> simp
+
+theorem runMicro_shardCore (w : World) (n : NId) (v : VId) (c : CId) (axis k : Int) (devs : List Int)
+    (stage : Option Int) : runMicro w (shardProgCore n v c axis k devs stage) = shardCore w n v c axis k devs stage := by
+  unfold shardCore
+  simp only [shardProgCore, runMicro]
+  by_cases h0 : InIO (w.node n) v
+  · by_cases h1 : k < 1
+    · have : shardDev (w.node n) (w.value v) v c axis k devs stage = none := by
+        unfold shardDev; simp [ShardArgsBad, h1]
+      simp [h0, h1, this]
+    by_cases h2 : stageNeg stage = true
+    · have : shardDev (w.node n) (w.value v) v c axis k devs stage = none := by
+        unfold shardDev; simp [ShardArgsBad, (stageNeg_eq stage).mp h2]
+      simp [h0, h1, h2, this]
+    by_cases h3 : AxisBad (rankOf (w.value v)) axis
+    · have : shardDev (w.node n) (w.value v) v c axis k devs stage = none := by
+        unfold shardDev; simp [ShardArgsBad, h3]
+      simp [h0, h1, h2, h3, this]
+    have hargs : ¬ ShardArgsBad (w.node n) (w.value v) v axis k stage := by
+      simp only [ShardArgsBad, not_or, Classical.not_not]
+      exact ⟨h0, h1, fun hx => h2 ((stageNeg_eq stage).mpr hx), h3⟩
+    simp only [h0, not_true_eq_false, decide_false, h1, h2, h3, Bool.false_eq_true, if_false]
+    cases hd : shardDev (w.node n) (w.value v) v c axis k devs stage with
+    | some d =>
+      obtain ⟨_, dim, h'⟩ := shardDev_ok hd
+      have hne : ¬ (conflictBad (w.node n).dev c stage = true ∨
+          repeatBad (w.node n).dev c v (rankOf (w.value v)) axis = true) := by
+        rw [← shardCfgs_none_bad (devs := devs) (newDim := ⟨axis, dim, k⟩), h']; simp
+      simp only [not_or] at hne
+      simp [hne.1, hne.2, hd]
+    | none =>
+      unfold shardDev at hd
+      simp only [hargs, if_false] at hd
+      rw [shardCfgs_none_bad] at hd
+      rcases hd with hd | hd
+      · simp [hd]
+      · by_cases hc : conflictBad (w.node n).dev c stage = true
+        · simp [hc]
+        · simp [hc, hd]
+
+  · have : shardDev (w.node n) (w.value v) v c axis k devs stage = none := by
+      unfold shardDev; simp [ShardArgsBad, h0]
+    simp [h0, this]
+
+/-- the requests `Node.shard` documents as invalid -/
+def ShardInvalid (w : World) (n : NId) (v : VId) (c : CId) (axis k : Int) (devs : List Int)
+    (stage : Option Int) : Prop :=
+  DevsBad w c devs ∨ ShardInvalidCore w n v c axis k stage
+
+theorem shard_raised_iff {w : World} (n : NId) (v : VId) (c : CId) (axis k : Int) (devs : List Int)
+    (stage : Option Int) (hn : NodeOK w (w.node n)) :
+    (shard w n v c axis k devs stage).2 = .raised ↔ ShardInvalid w n v c axis k devs stage := by
+  unfold shard ShardInvalid
+  by_cases hd : DevsBad w c devs
+  · simp [hd]
+  · simp only [hd, if_false, false_or]
+    exact shardCore_raised_iff n v c axis k devs stage hn
+
+theorem DevOK_shard {w : World} (h : DevOK w) (n : NId) (v : VId) (c : CId) (axis k : Int)
+    (devs : List Int) (stage : Option Int)
+    (hpre : Pre w (.shard n v c axis k devs stage)) :
+    DevOK (shard w n v c axis k devs stage).1 := by
+  obtain ⟨hreg, hc⟩ := hpre
+  unfold shard
+  by_cases hd : DevsBad w c devs
+  · simp only [hd, if_true]; exact h
+  · simp only [hd, if_false]
+    refine DevOK_shardCore h n v c axis k devs stage hreg hc ?_
+    intro d hdm
+    apply Classical.byContradiction
+    intro hbad
+    exact hd ⟨d, hdm, hbad⟩
+
+theorem runMicro_shard (w : World) (n : NId) (v : VId) (c : CId) (axis k : Int) (devs : List Int)
+    (stage : Option Int) : runMicro w (shardProg n v c axis k devs stage) = shard w n v c axis k devs stage := by
+  have hcore := runMicro_shardCore w n v c axis k devs stage
+  unfold shard
+  simp only [shardProg, shardProgCore, runMicro] at hcore ⊢
+  by_cases hd : DevsBad w c devs
+  · simp only [hd, if_true, decide_true]
+    -- every check in front of the device check raises as well
+    by_cases h0 : InIO (w.node n) v <;> by_cases h1 : k < 1 <;> by_cases h2 : stageNeg stage = true <;> simp [h0, h1, h2]
+  · simp only [hd, if_false, decide_false, Bool.false_eq_true]
+    exact hcore
+
+theorem runMicro_setStage (w : World) (n : NId) (c : CId) (stage : Int) :
+    runMicro w (setStageProg n c stage) = setStage w n c stage := by
+  simp only [setStageProg, runMicro, setStage]
+  by_cases h : stage < 0 <;> simp [h]
+
+theorem runMicro_replaceInput (w : World) (n : NId) (i : Int) (val : Option VId) :
+    runMicro w (replaceInputProg n i val) = replaceInput w n i val := by
+  simp only [replaceInputProg, runMicro, replaceInput]
+  by_cases h : i < 0 ∨ i ≥ ((w.node n).inputs.length : Int) <;> simp [h]
+
+theorem runMicro_attachNode (w : World) (g : GId) (n : NId) :
+    runMicro w (attachNodeProg g n) = attachNode w g n := by
+  simp only [attachNodeProg, runMicro]
+  by_cases h : InOtherGraph w g n
+  · simp [h, attachNode]
+  · simp only [h, decide_false, Bool.false_eq_true, if_false]
+    simp only [attachNode, h, if_false]
+    split <;> rfl
+
+theorem runMicro_newInit (w : World) (g : GId) (name : String) (shape : Option (List Dim)) :
+    runMicro w (newInitProg g name shape) = newInit w g name shape := by
+  simp only [newInitProg, runMicro]
+  by_cases h1 : name = ""
+  · simp [h1, newInit]
+  · by_cases h2 : ∃ v ∈ (w.graph g).inits, (w.value v).name = name
+    · simp [h1, h2, newInit]
+    · simp only [h1, h2, decide_false, Bool.false_eq_true, if_false]
+      simp [newInit, h1, h2]
+
+theorem runMicro_rename (w : World) (v : VId) (s : String) :
+    runMicro w (renameProg v s) = rename w v s := by
+  simp only [renameProg, runMicro]
+  by_cases h1 : (w.value v).name = s
+  · simp [h1, rename]
+  · by_cases h2 : ∃ gs ∈ w.graphs, v ∈ gs.inits ∧ (s = "" ∨ ∃ v' ∈ gs.inits, v' ≠ v ∧ (w.value v').name = s)
+    · simp [h1, h2, rename]
+    · simp only [h1, h2, ne_eq, not_false_eq_true, true_and, decide_false, Bool.false_eq_true, if_false]
+      simp [rename, h1, h2]
+
+theorem runMicro_addCfg (w : World) (m : MId) (name : String) (num : Option Int) (names : List String) :
+    runMicro w (addCfgProg m name num names) = addCfg w m name num names := by
+  simp only [addCfgProg, runMicro]
+  by_cases h1 : name = ""
+  · simp [h1, addCfg]
+  · by_cases h2 : ∃ c ∈ (w.model m).cfgs, (w.cfg c).name = name
+    · simp [h1, h2, addCfg]
+    · by_cases h3 : num.getD (names.length : Int) < 1
+      · simp [h1, h2, h3, addCfg]
+      · by_cases h4 : names ≠ [] ∧ (names.length : Int) ≠ num.getD (names.length : Int)
+        · simp [h1, h2, h3, h4, addCfg]
+        · simp only [h1, h2, h3, h4, decide_false, Bool.false_eq_true, if_false]
+          simp [addCfg, h1, h2, h3, h4]
+
+theorem runMicro_removeCfg (w : World) (m : MId) (r : CfgRef) (cascade : Bool) :
+    runMicro w (removeCfgProg m r cascade) = removeCfg w m r cascade := by
+  simp only [removeCfgProg, runMicro]
+  cases h : removeTarget w (w.model m) r with
+  | none => simp [removeCfg, h]
+  | some t =>
+    simp only [Option.isNone_some, Bool.false_eq_true, if_false]
+    simp only [removeCfg, h]
+    split <;> rfl
+
+theorem runMicro_removeNode (w : World) (g : GId) (n : NId) (safe : Bool) :
+    runMicro w (removeNodeProg g n safe) = removeNode w g n safe := by
+  simp only [removeNodeProg, runMicro]
+  by_cases h1 : n ∉ (w.graph g).nodes
+  · simp [h1, removeNode]
+  · by_cases h2 : safe = true ∧ (∃ o ∈ (w.node n).outputs, ∃ k, k < w.nodes.length ∧ k ≠ n ∧ some o ∈ (w.node k).inputs)
+    · simp only [h1, decide_false, Bool.false_eq_true, if_false, h2, decide_true, if_true]
+      simp [removeNode, h1, h2]
+    · simp only [h1, h2, decide_false, Bool.false_eq_true, if_false]
+      simp [removeNode, h1, h2]
+
+theorem runMicro_resizeOutputs (w : World) (n : NId) (k : Nat) :
+    runMicro w (resizeOutputsProg n k) = resizeOutputs w n k := by
+  simp only [resizeOutputsProg, runMicro]
+  by_cases h1 : k = (w.node n).outputs.length
+  · have : ¬ k < (w.node n).outputs.length := by omega
+    simp [this, resizeOutputs, h1]
+  · by_cases h2 : k < (w.node n).outputs.length
+    · by_cases h3 : ∃ o ∈ (w.node n).outputs.drop k, HasUses w o
+      · simp [h2, h3, resizeOutputs, h1]
+      · simp only [h2, h3, and_false, decide_false, Bool.false_eq_true, if_false]
+        simp [resizeOutputs, h1, h2, h3]
+    · simp only [h2, false_and, decide_false, Bool.false_eq_true, if_false]
+      simp [resizeOutputs, h1, h2]
+
+/-- the micro-step semantics and the denotations agree -/
+theorem step_eq_stepD (w : World) (op : Op) : step w op = stepD w op := by
+  cases op <;> simp only [step, progOf, stepD]
+  · exact runMicro_removeNode _ _ _ _
+  · exact runMicro_attachNode _ _ _
+  · exact runMicro_newInit _ _ _ _
+  · exact runMicro_rename _ _ _
+  · exact runMicro_addCfg _ _ _ _ _
+  · exact runMicro_removeCfg _ _ _ _
+  · exact runMicro_shard _ _ _ _ _ _ _ _
+  · exact runMicro_setStage _ _ _ _
+  · exact runMicro_replaceInput _ _ _ _
+  · exact runMicro_resizeOutputs _ _ _
+
+/-! ### the added operations preserve the invariant -/
+
+theorem DevOK_newInit {w : World} (h : DevOK w) (g : GId) (name : String) (shape : Option (List Dim)) :
+    DevOK (newInit w g name shape).1 := by
+  unfold newInit
+  split
+  · exact h
+  · split
+    · exact h
+    · have h1 : DevOK { w with values := w.values ++ [({ name := name, shape := shape } : ValueS)] } :=
+        h.ext_same_nodes (Ext_append_values w _) rfl rfl
+      exact DevOK_setGraph h1 g _
+
+theorem DevOK_setDev {w : World} (h : DevOK w) (n : NId) (dev : List NodeCfg) (hpre : Pre w (.setDev n dev)) :
+    DevOK (setDev w n dev).1 := by
+  unfold setDev
+  exact DevOK_setNode h n _ hpre.1 (fun ms hms hn nc hnc => hpre.2 nc hnc ms hms hn)
+
+theorem DevOK_setModelCfgs {w : World} (h : DevOK w) (m : MId) (cfgs : List CId)
+    (hpre : Pre w (.setModelCfgs m cfgs)) : DevOK (setModelCfgs w m cfgs).1 := by
+  unfold setModelCfgs
+  exact DevOK_setModel h m _ hpre
+
+theorem DevOK_attachNode {w : World} (h : DevOK w) (g : GId) (n : NId) (hpre : Pre w (.attachNode g n)) :
+    DevOK (attachNode w g n).1 := by
+  unfold attachNode
+  split
+  · exact h
+  · split
+    · exact DevOK_setGraph h g _
+    have h2 := DevOK_setGraph h g { (w.graph g) with nodes := (w.graph g).nodes ++ [n] }
+    apply DevOK_mapModels h2
+    intro ms hms
+    by_cases hg : g ∈ ms.graphs
+    · rw [if_pos hg]
+      obtain ⟨a, b, c⟩ := h.2 ms hms
+      refine ⟨?_, b, c⟩
+      intro k hk
+      simp only [List.mem_append] at hk
+      rcases hk with hk | hk
+      · exact a k hk
+      · exact hpre ms hms hg k hk
+    · rw [if_neg hg]; exact h2.2 ms hms
 
 end IrVerif.Device
